@@ -339,11 +339,23 @@ func parseBalanceChange(rawData []byte, sl types.StakerList) (map[string]int, er
 		for i := 7; i >= 0; i-- {
 			index++
 			if (b>>i)&1 == 1 {
+				// the data comes from price reports and is applied again whenever a round is
+				// carried forward (possibly against another staker list): never index past the
+				// staker list or past the data, report malformed input as an error instead
+				if index >= len(sl.StakerAddrs) {
+					return stakerChanges, errors.New("balance change marked for a staker index beyond the staker list")
+				}
+				if byteIndex >= len(changes) {
+					return stakerChanges, errors.New("balance change data is shorter than its index map indicates")
+				}
 				lenValue := changes[byteIndex] << bitOffset
 				bitsLeft := 8 - bitOffset
 				lenValue >>= (8 - lengthBits)
 				if bitsLeft < lengthBits {
 					byteIndex++
+					if byteIndex >= len(changes) {
+						return stakerChanges, errors.New("balance change data is shorter than its index map indicates")
+					}
 					lenValue |= changes[byteIndex] >> (8 - lengthBits + bitsLeft)
 					bitOffset = lengthBits - bitsLeft
 				} else {
@@ -364,6 +376,9 @@ func parseBalanceChange(rawData []byte, sl types.StakerList) (map[string]int, er
 				bitsExtracted := 0
 				stakerChange := 0
 				for bitsExtracted < int(lenValue) {
+					if byteIndex >= len(changes) {
+						return stakerChanges, errors.New("balance change data is shorter than its index map indicates")
+					}
 					bitsLeft := 8 - bitOffset
 					byteValue := changes[byteIndex] << bitOffset
 					if (int(lenValue) - bitsExtracted) < bitsLeft {
